@@ -91,7 +91,9 @@ def scen_chunk(args):
             base = scen.new_base(workdir)
             try:
                 rnd = random.Random(f"{seed}-{si}")
-                m = scen.Mat(sc, base, seed=0, plain=True)
+                # every other scenario has its second main written in Fortran (.F90): the headers it shares with the
+                # C main are then reached from includers of different language families
+                m = scen.Mat(sc, base, seed=0, plain=True, ext_of=({"src/m2.c": ".F90"} if si % 2 else None))
                 # a symbolic link whose extension belongs to another language family than its target's
                 os.makedirs(os.path.join(m.root, "inc"), exist_ok=True)
                 os.symlink(os.path.join("..", "src", "m1.c"), os.path.join(m.root, "inc", "alias.F90"))
@@ -104,6 +106,12 @@ def scen_chunk(args):
                         json.dump(m.database(byp[p], rnd), f)
                     dbs[p] = dbp
                 rep = sc["rep"]
+                if si % 2:
+                    # the specification calls the file src/m2.c; on disk it is src/m2.F90
+                    rep = json.loads(json.dumps(rep))
+                    for row in rep["tree"]:
+                        if row["path"] == ["src", "m2.c"]:
+                            row["path"] = ["src", "m2.F90"]
                 if len(plats) > 1:
                     stats["nontrivial"] += 1
                 exp = scen.expected_by_plat(m, sc)
